@@ -8,6 +8,7 @@ import (
 	"verifharness/gen"
 	"verifharness/mon"
 	"verifharness/ref"
+	"verifharness/yqx"
 )
 
 // C03 — delete removes exactly the selected nodes and nothing else.
@@ -101,7 +102,7 @@ func (p c03) Run(w *mon.Worker, idx int) mon.Result {
 		}
 	}
 	evalDoc := func(expr string, d *ref.V) (*ref.V, []*ref.V, error) { return evalDocFmt(expr, d, inFmt) }
-	fam := []string{"fresh", "union", "derived", "fresh", "union", "derived", "side", "mapderived"}[idx%8]
+	fam := []string{"fresh", "union", "derived", "fresh", "union", "derived", "side", "mapderived", "exploded"}[idx%9]
 	res := mon.Result{Tags: []string{"family:" + fam}}
 	cs := map[string]any{"doc": doc.JSON(), "family": fam}
 	res.Case = cs
@@ -311,6 +312,74 @@ func (p c03) Run(w *mon.Worker, idx int) mon.Result {
 		}
 		res.Verdict, res.Nontrivial = mon.Held, nontrivial(doc, all)
 		res.Detail = fmt.Sprintf("%d+%d location(s), both orders agree", len(t1), len(t2))
+		return res
+
+	case "exploded":
+		// a document just exploded: entries that came in through merge keys are entries of the map they were merged
+		// into; deleting one removes it there (and nowhere else)
+		text := c16MergeDoc(r)
+		cs["doc"] = text
+		exOut, e0, p0 := yqx.Eval("explode(.)", text, "yaml", "json")
+		res.Evals++
+		if e0 != nil || p0 != nil {
+			return skip("explode failed")
+		}
+		dv, pe := ref.ParseJSONStream(exOut)
+		if pe != nil || len(dv) != 1 || dv[0].K != ref.Map {
+			return skip("explode output not a single map")
+		}
+		derived := dv[0]
+		var holders []string
+		for _, kv := range derived.M {
+			if kv.V.K == ref.Map && len(kv.V.M) >= 2 && kv.K != "base" && kv.K != "extra" {
+				holders = append(holders, kv.K)
+			}
+		}
+		if len(holders) == 0 {
+			return skip("no merging map")
+		}
+		hk := holders[r.IntN(len(holders))]
+		h, _ := derived.Get(hk)
+		e1 := h.M[r.IntN(len(h.M))].K
+		e2 := h.M[r.IntN(len(h.M))].K
+		var expr string
+		var del [][]any
+		switch r.IntN(3) {
+		case 0:
+			expr, del = fmt.Sprintf("explode(.) | del(.%s.%s)", hk, e1), [][]any{{hk, e1}}
+		case 1:
+			expr, del = fmt.Sprintf("explode(.) | del(.%s.%s, .%s.%s)", hk, e1, hk, e2), [][]any{{hk, e1}, {hk, e2}}
+		default:
+			if hk == "nested" {
+				// (an anchored map others merge: what is deleted from it is, rightly, gone for them too)
+				return skip("holder is an anchored map")
+			}
+			expr, del = fmt.Sprintf("explode(.%s) | del(.%s.%s)", hk, hk, e1), nil
+			// only that sub-tree is exploded: the expectation is taken from yq's own `explode(.hk)` output
+			o2, e2x, p2x := yqx.Eval(fmt.Sprintf("explode(.%s)", hk), text, "yaml", "json")
+			res.Evals++
+			if e2x != nil || p2x != nil {
+				return skip("partial explode failed")
+			}
+			d2, pe2 := ref.ParseJSONStream(o2)
+			if pe2 != nil || len(d2) != 1 {
+				return skip("partial explode output")
+			}
+			derived, del = d2[0], [][]any{{hk, e1}}
+		}
+		cs["expr"] = expr
+		res.Sig = fmt.Sprintf("exploded|%s|%x", expr, hashStr(text))
+		want := ref.DeletePaths(derived, del)
+		gotOut, e3, p3 := yqx.Eval(expr, text, "yaml", "json")
+		res.Evals++
+		if e3 != nil || p3 != nil {
+			return fail("`%s` failed: %v %v", expr, e3, p3)
+		}
+		gv, pe3 := ref.ParseJSONStream(gotOut)
+		if pe3 != nil || len(gv) != 1 || !ref.EqualNum(gv[0], want) {
+			return fail("`%s`\n input of del %s\n expected     %s\n observed     %s", expr, derived, want, clipStr(gotOut, 900))
+		}
+		res.Verdict, res.Nontrivial, res.Detail = mon.Held, true, "entry removed from the map it was merged into"
 		return res
 
 	case "mapderived":
